@@ -7,6 +7,7 @@ package main
 
 import (
 	"context"
+	"encoding/json"
 	"errors"
 	"fmt"
 	"math/rand"
@@ -229,32 +230,78 @@ func c14GormRound(r *Result, i, n int) {
 	}
 }
 
-// F14a through the public API only
+// F14a through the public API only: a prepared session runs a query and Resets its cache; a prepared session obtained
+// AFTERWARDS from the same database runs the same query.  Demanded (property text): the same rows as in non-prepared
+// mode — the cache was reset, not closed.  Both before/after orders are probed: Reset through the first session then a NEW
+// session, and Reset through the first session then an OLDER sibling session.
 func c14GormStaleProbe(r *Result) {
-	db, _, sqlDB := OpenRec(nil)
-	defer sqlDB.Close()
-	db.Exec("create table c14_rows(id integer primary key, name text, age int)")
-	db.Exec("insert into c14_rows(id,name,age) values (1,'a',1)")
-	s1 := db.Session(&gorm.Session{PrepareStmt: true})
-	var x c14Row
-	e1 := s1.Raw("select * from c14_rows where id = ?", 1).Scan(&x).Error
-	s1.ConnPool.(*gorm.PreparedStmtDB).Reset()
-	time.Sleep(20 * time.Millisecond)
-	s2 := db.Session(&gorm.Session{PrepareStmt: true})
-	e2 := s2.Raw("select * from c14_rows where id = ?", 1).Scan(&x).Error
+	type obs struct {
+		Variant string `json:"variant"`
+		E1, E2  string
+	}
+	errText := func(e error) string {
+		if e == nil {
+			return ""
+		}
+		return e.Error()
+	}
+	var seen []obs
+	for _, variant := range []string{"new-session-after-reset", "older-session-after-reset"} {
+		db, _, sqlDB := OpenRec(nil)
+		db.Exec("create table c14_rows(id integer primary key, name text, age int)")
+		db.Exec("insert into c14_rows(id,name,age) values (1,'a',1)")
+		var older *gorm.DB
+		if variant == "older-session-after-reset" {
+			older = db.Session(&gorm.Session{PrepareStmt: true})
+			var y c14Row
+			older.Raw("select * from c14_rows where id = ?", 1).Scan(&y)
+		}
+		s1 := db.Session(&gorm.Session{PrepareStmt: true})
+		var x c14Row
+		e1 := s1.Raw("select * from c14_rows where id = ?", 1).Scan(&x).Error
+		s1.ConnPool.(*gorm.PreparedStmtDB).Reset()
+		time.Sleep(20 * time.Millisecond)
+		s2 := older
+		if s2 == nil {
+			s2 = db.Session(&gorm.Session{PrepareStmt: true})
+		}
+		x = c14Row{}
+		e2 := s2.Raw("select * from c14_rows where id = ?", 1).Scan(&x).Error
+		if e2 == nil && x.ID != 1 {
+			e2 = fmt.Errorf("wrong row %v", x)
+		}
+		seen = append(seen, obs{variant, errText(e1), errText(e2)})
+		sqlDB.Close()
+	}
 	r.Case("gorm", "stale-session-probe", true)
-	if e1 == nil && e2 != nil {
+	bad := ""
+	for _, o := range seen {
+		if o.E1 != "" {
+			r.Violate(Violation{Kind: "e2e", Suite: "gorm", Input: "stale-session-probe", Observed: o, Expected: "the first prepared session's query succeeds"})
+			return
+		}
+		if o.E2 != "" && bad == "" {
+			bad = o.Variant + ": " + o.E2
+		}
+	}
+	if bad != "" {
 		if listed("F14a-C14-stale-shared-map") {
-			r.KnownFinding("F14a-C14-stale-shared-map", "gorm API: Session(PrepareStmt) → query → Reset through that session → new Session(PrepareStmt) → same query: "+e2.Error())
+			r.KnownFinding("F14a-C14-stale-shared-map", "gorm API: Session(PrepareStmt) → query → Reset through that session → another Session(PrepareStmt) of the same database → same query: "+bad)
 		} else {
-			r.Violate(Violation{Kind: "e2e", Suite: "gorm", Input: "stale-session-probe", Observed: e2.Error(), Expected: "same rows as non-prepared mode"})
+			r.Violate(Violation{Kind: "e2e", Suite: "gorm", Input: "stale-session-probe", Observed: seen, Expected: "same rows as non-prepared mode (the cache was reset, not closed)"})
 		}
 	} else {
-		r.Note("F14a no longer reproduces through the gorm API (e1=%v e2=%v)", e1, e2)
+		r.Note("probe F14a through the gorm API: Reset through one prepared session, same query through another: rows in both variants (facts: session reuses the registered struct=%v)", c14Facts().SessReuse)
 	}
 }
 
 func init() {
+	replayers["C14/gorm"] = func(r *Result, input json.RawMessage) {
+		var name string
+		if json.Unmarshal(input, &name) == nil && name == "stale-session-probe" {
+			c14GormStaleProbe(r)
+		}
+	}
 	register("C14", func(r *Result, rng *rand.Rand, tier string) {
 		rounds, grounds := 400, 12
 		if tier == "thorough" {
